@@ -12,8 +12,8 @@ struct StepGraphSpec {
 };
 
 inline const char *stepFamilyName(int f) {
-    static const char *n[] = {"layered", "grid", "hypercube", "complete", "complete_bipartite", "ladder", "ring", "zero_weight_clique", "gnp", "diamond_chain", "skip_chain", "convex_dag", "plain_ladder", "path_with_duplicate_edges"};
-    return n[f % 14];
+    static const char *n[] = {"layered", "grid", "hypercube", "complete", "complete_bipartite", "ladder", "ring", "zero_weight_clique", "gnp", "diamond_chain", "skip_chain", "convex_dag", "plain_ladder", "path_with_duplicate_edges", "routes_to_junction_with_tail"};
+    return n[f % 15];
 }
 
 // edge list of a family member; vertices 0..V-1
@@ -21,7 +21,7 @@ inline unsigned buildFamily(const StepGraphSpec &s, std::vector<std::pair<unsign
     es.clear();
     sim::Rng r(s.gseed);
     unsigned V = 0;
-    switch (s.family % 14) {
+    switch (s.family % 15) {
     case 0: { // layered: source, d layers of width w fully connected layer to layer, sink  (w^d shortest paths)
         int w = 2 + s.p1 % 4, d = 2 + s.p2 % 39;
         while ((long)w * d > 160) --d;
@@ -122,6 +122,22 @@ inline unsigned buildFamily(const StepGraphSpec &s, std::vector<std::pair<unsign
             for (unsigned c = 0; c < copies; ++c) es.emplace_back(i, i + 1);
         break;
     }
+    case 14: { // m disjoint routes of different edge counts from the source to a junction, then a long tail behind it
+        unsigned mroutes = 2 + (unsigned)(s.p1 % 6), tail = 5 + (unsigned)(s.p2 % 60);
+        unsigned next = 1;
+        std::vector<unsigned> ends;
+        for (unsigned i = 0; i < mroutes; ++i) { // route i has i inner vertices
+            unsigned prev = 0;
+            for (unsigned k = 0; k < i; ++k) { es.emplace_back(prev, next); prev = next++; }
+            ends.push_back(prev);
+        }
+        const unsigned J = next++;
+        for (unsigned e : ends) es.emplace_back(e, J);
+        unsigned prev = J;
+        for (unsigned k = 0; k < tail; ++k) { es.emplace_back(prev, next); if (k % 3 == 2) es.emplace_back(J, next); prev = next++; }
+        V = next;
+        break;
+    }
     default: { // chain of diamonds: 2^d shortest paths with 3d+1 vertices
         int d = 1 + s.p1 % 40;
         V = (unsigned)(3 * d + 1);
@@ -140,14 +156,23 @@ inline unsigned buildFamily(const StepGraphSpec &s, std::vector<std::pair<unsign
 }
 
 inline double stepWeight(unsigned a, unsigned b, uint64_t seed, int family) {
-    if (family % 14 == 7) return 0.0;
-    if (family % 14 == 10 || family % 14 == 11) { // convex in the span: every shortcut is worse than the hops it skips
+    if (family % 15 == 7) return 0.0;
+    // weight scheme of the graph: dyadic alphabet with zeros and ties (exact sums), a uniform non-dyadic weight, a small
+    // non-dyadic alphabet (sums that round), all zero, or zero except rare tiny weights that are absorbed by larger sums
+    const int scheme = (int)((seed >> 7) % 6);
+    if (family % 15 == 14 && scheme < 2) return 0.0;
+    if (scheme == 2) return 0.1;
+    if (scheme == 4) return 0.0;
+    if (family % 15 == 10 || family % 15 == 11) { // convex in the span: every shortcut is worse than the hops it skips
         double d = a < b ? (double)(b - a) : (double)(a - b);
         return d * d;
     }
     static const double w[4] = {0.0, 0.25, 1.0, 3.0};
+    static const double nd[4] = {0.1, 0.2, 0.3, 0.7};
     uint64_t x = seed ^ ((uint64_t)a * 0x9e3779b97f4a7c15ULL) ^ ((uint64_t)b * 0xc2b2ae3d27d4eb4fULL);
     x ^= x >> 31; x *= 0xbf58476d1ce4e5b9ULL; x ^= x >> 29;
+    if (scheme == 3) return nd[x & 3];
+    if (scheme == 5) return (x & 15) == 0 ? 1e-30 : ((x & 15) == 1 ? 1.0 : 0.0);
     return w[x & 3];
 }
 
@@ -166,7 +191,7 @@ inline void runStepPlan(const sim::Plan &plan, sim::RunResult &res, Env &env) {
         const sim::Op &op = plan.ops[i];
         if (op.k != "steps") continue;
         StepGraphSpec s;
-        s.family = (int)modn(op.x, 14);
+        s.family = (int)modn(op.x, 15);
         s.p1 = (int)modn(op.a, 1 << 20);
         s.p2 = (int)modn(op.b, 1 << 20);
         const int algo = (int)modn(op.y, 3);
